@@ -1,6 +1,12 @@
 package main
 
-// Sequence model: random operation programs on one typed list against a plain Go slice.
+// Sequence model: random operation programs on a small POOL of live typed lists of one
+// element type, each list against its own plain Go slice. Operations pick a target list and,
+// where they take or produce another sequence (AddAll, AddAllArray, Filtering, Sorting +
+// Filtering, ToArray, Write/Read), a source from the pool; every derived list joins the pool.
+// After EVERY mutation ALL lists of the pool are compared with their models, and so are all
+// arrays that were handed out by or passed into the library earlier (ToArray results, index
+// slices, AddAllArray arguments, wire byte slices): distinct lists are independent sequences.
 
 import (
 	"bytes"
@@ -16,16 +22,51 @@ import (
 
 var canary = []byte{0xC1, 0x3C, 0xA5}
 
-// seqRun is the state of one sequence case.
-type seqRun[T any, L tlist[T, L]] struct {
-	c    *vlib.Ctx
-	k    *kind[T, L]
-	r    *vlib.Rand
+const (
+	maxPool  = 6   // live lists under observation in one program
+	maxHeld  = 8   // arrays / byte slices under observation in one program
+	maxJoint = 600 // bulk adds from pool sources keep target+source below this size
+)
+
+// plist is one live list of the pool together with its model.
+type plist[T any, L tlist[T, L]] struct {
+	id   int
 	l    L
 	m    []T
-	ops  []string
 	ctor string
-	dead bool // the list's state is unknown after a failed mutator: stop the program
+}
+
+// held is an array or byte slice that crossed the library boundary earlier (returned by it
+// or passed into it). It must keep its contents whatever happens to the lists later, and
+// writing to it must not change any list.
+type held struct {
+	origin   string // the method that handed it out / took it: the key of an aliasing report
+	desc     string
+	check    func() string // "" while the contents are what they were
+	scribble func()        // overwrite the contents (the expectation follows)
+}
+
+// seqRun is the state of one sequence case.
+type seqRun[T any, L tlist[T, L]] struct {
+	c       *vlib.Ctx
+	k       *kind[T, L]
+	r       *vlib.Rand
+	pool    []*plist[T, L]
+	t       *plist[T, L] // target of the current operation
+	helds   []*held
+	links   map[[2]int]string // pair of list ids → the operation that last related them
+	nextID  int
+	ops     []string
+	mutated bool   // the current step changed (or may have changed) some list
+	last    string // method of the last mutation
+	dead    bool   // some list's state is unknown after a failed mutator: stop the program
+}
+
+func pairOf(a, b int) [2]int {
+	if a > b {
+		a, b = b, a
+	}
+	return [2]int{a, b}
 }
 
 func (s *seqRun[T, L]) logf(format string, a ...interface{}) {
@@ -34,34 +75,220 @@ func (s *seqRun[T, L]) logf(format string, a ...interface{}) {
 
 func (s *seqRun[T, L]) fail(method, kindStr, msg string) {
 	key := s.k.name + "." + method + ":" + kindStr
-	var actual []string
-	sz := -1
-	vlib.Catch(func() { sz = s.l.Size(); actual = showAll(s.k.show, s.l.ToArray()) })
-	tl, _ := tableLen(s.l)
-	s.c.Fail(key, msg, map[string]interface{}{
-		"list": s.k.name, "constructor": s.ctor, "ops": s.ops, "model": showAll(s.k.show, s.m),
-		"actual_size": sz, "actual": actual, "backing_len": tl,
-	})
+	pool := make([]map[string]interface{}, 0, len(s.pool))
+	for _, p := range s.pool {
+		var actual []string
+		sz := -1
+		vlib.Catch(func() { sz = p.l.Size(); actual = showAll(s.k.show, p.l.ToArray()) })
+		tl, _ := tableLen(p.l)
+		pool = append(pool, map[string]interface{}{"list": fmt.Sprintf("L%d", p.id), "constructor": p.ctor,
+			"model": showAll(s.k.show, p.m), "actual_size": sz, "actual": actual, "backing_len": tl})
+	}
+	target := ""
+	if s.t != nil {
+		target = fmt.Sprintf("L%d", s.t.id)
+	}
+	s.c.Fail(key, msg, map[string]interface{}{"list": s.k.name, "ops": s.ops, "target": target, "pool": pool})
 }
 
-// verify compares size and content with the model.
-func (s *seqRun[T, L]) verify(after string) bool {
-	if sz := s.l.Size(); sz != len(s.m) {
-		s.fail(after, "wrong-size", fmt.Sprintf("after %s: Size()=%d, model has %d elements", after, sz, len(s.m)))
-		return false
+// construct builds an empty list with one of the constructors.
+func (s *seqRun[T, L]) construct(ctorIdx int) (L, string) {
+	k := s.k
+	switch ctorIdx {
+	case 0:
+		return k.newDef(), "Default"
+	case 1:
+		return k.newCap(0), "cap 0"
+	case 2:
+		return k.newCap(1), "cap 1"
+	case 3:
+		return k.newCap(10), "cap 10"
+	case 4:
+		return k.newCap(30), "cap 30"
+	case 5:
+		return k.zero(), "zero-value struct"
+	case 6:
+		n := s.r.Range(2, 70)
+		return k.newCap(n), fmt.Sprintf("cap %d (other)", n)
+	}
+	return k.newCap(10), "cap 10"
+}
+
+func (s *seqRun[T, L]) indexOf(p *plist[T, L]) int {
+	for j, q := range s.pool {
+		if q == p {
+			return j
+		}
+	}
+	return -1
+}
+
+// join puts a list under observation. A full pool drops one list that is neither the
+// primary list (index 0) nor the current target.
+func (s *seqRun[T, L]) join(l L, m []T, ctor string) *plist[T, L] {
+	p := &plist[T, L]{id: s.nextID, l: l, m: m, ctor: ctor}
+	s.nextID++
+	s.c.Count("pool_lists", 1)
+	if len(s.pool) < maxPool {
+		s.pool = append(s.pool, p)
+		return p
+	}
+	ti := s.indexOf(s.t)
+	j := 1 + s.r.Intn(len(s.pool)-1)
+	if j == ti {
+		j = 1 + j%(len(s.pool)-1)
+	}
+	s.pool[j] = p
+	return p
+}
+
+func (s *seqRun[T, L]) hold(h *held) {
+	s.helds = append(s.helds, h)
+	if len(s.helds) > maxHeld {
+		s.helds = s.helds[1:]
+	}
+	s.c.Count("held_arrays", 1)
+	s.c.SetAdd("held_array_origins", h.origin)
+}
+
+func (s *seqRun[T, L]) holdVals(origin, desc string, arr []T) {
+	if len(arr) == 0 {
+		return
+	}
+	k, r := s.k, s.r
+	want := append([]T(nil), arr...)
+	s.hold(&held{origin: origin, desc: desc,
+		check: func() string {
+			for j := range want {
+				if !k.eq(arr[j], want[j]) {
+					return fmt.Sprintf("element %d is now %s, it was %s", j, k.show(arr[j]), k.show(want[j]))
+				}
+			}
+			return ""
+		},
+		scribble: func() {
+			for j := range arr {
+				arr[j] = k.draw(r)
+				want[j] = arr[j]
+			}
+		}})
+}
+
+func (s *seqRun[T, L]) holdInts(origin, desc string, arr []int) {
+	if len(arr) == 0 {
+		return
+	}
+	r := s.r
+	want := append([]int(nil), arr...)
+	s.hold(&held{origin: origin, desc: desc,
+		check: func() string {
+			for j := range want {
+				if arr[j] != want[j] {
+					return fmt.Sprintf("index %d is now %d, it was %d", j, arr[j], want[j])
+				}
+			}
+			return ""
+		},
+		scribble: func() {
+			for j := range arr {
+				arr[j] = int(r.I32())
+				want[j] = arr[j]
+			}
+		}})
+}
+
+func (s *seqRun[T, L]) holdBytes(origin, desc string, b []byte) {
+	if len(b) == 0 {
+		return
+	}
+	r := s.r
+	want := append([]byte(nil), b...)
+	s.hold(&held{origin: origin, desc: desc,
+		check: func() string {
+			for j := range want {
+				if b[j] != want[j] {
+					return fmt.Sprintf("byte %d is now %02x, it was %02x", j, b[j], want[j])
+				}
+			}
+			return ""
+		},
+		scribble: func() {
+			for j := range b {
+				b[j] ^= byte(1 + r.Intn(255))
+				want[j] = b[j]
+			}
+		}})
+}
+
+// diff compares one list with its model: size, ToArray, every element.
+func (s *seqRun[T, L]) diff(p *plist[T, L]) (method, kindStr, msg string) {
+	if sz := p.l.Size(); sz != len(p.m) {
+		return "", "wrong-size", fmt.Sprintf("L%d: Size()=%d, model has %d elements", p.id, sz, len(p.m))
 	}
 	var arr []T
-	if p := vlib.Catch(func() { arr = s.l.ToArray() }); p != nil {
-		s.fail("ToArray", "panic", fmt.Sprintf("ToArray panicked after %s: %v", after, p))
-		return false
+	if pn := vlib.Catch(func() { arr = p.l.ToArray() }); pn != nil {
+		return "ToArray", "panic", fmt.Sprintf("L%d: ToArray panicked: %v", p.id, pn)
 	}
-	if len(arr) != len(s.m) {
-		s.fail("ToArray", "wrong-size", fmt.Sprintf("after %s: len(ToArray())=%d, model has %d", after, len(arr), len(s.m)))
-		return false
+	if len(arr) != len(p.m) {
+		return "ToArray", "wrong-size", fmt.Sprintf("L%d: len(ToArray())=%d, model has %d", p.id, len(arr), len(p.m))
 	}
 	for i := range arr {
-		if !s.k.eq(arr[i], s.m[i]) {
-			s.fail(after, "wrong-value", fmt.Sprintf("after %s: element %d is %s, model says %s", after, i, s.k.show(arr[i]), s.k.show(s.m[i])))
+		if !s.k.eq(arr[i], p.m[i]) {
+			return "", "wrong-value", fmt.Sprintf("L%d: element %d is %s, model says %s", p.id, i, s.k.show(arr[i]), s.k.show(p.m[i]))
+		}
+	}
+	return "", "", ""
+}
+
+// verify compares the TARGET list with its model.
+func (s *seqRun[T, L]) verify(after string) bool {
+	method, kd, msg := s.diff(s.t)
+	if kd == "" {
+		return true
+	}
+	if method == "" {
+		method = after
+	}
+	s.fail(method, kd, "after "+after+": "+msg)
+	return false
+}
+
+// verifyAll compares EVERY list of the pool and every held array with its model. A
+// difference in the target is the operation's own fault; a difference anywhere else means
+// two sequences are not independent: it is keyed by the operation that related the two lists
+// (blame, or the recorded link) with kind "aliased", or by the mutator with kind
+// "changed-other-list" when nothing relates them.
+func (s *seqRun[T, L]) verifyAll(after, blame string) bool {
+	s.c.Count("pool_verifications", 1)
+	for _, p := range s.pool {
+		s.c.Count("lists_verified", 1)
+		method, kd, msg := s.diff(p)
+		if kd == "" {
+			continue
+		}
+		switch {
+		case blame != "":
+			s.fail(blame, "aliased", fmt.Sprintf("after %s: %s", after, msg))
+		case p == s.t:
+			if method == "" {
+				method = after
+			}
+			s.fail(method, kd, "after "+after+": "+msg)
+		default:
+			if link := s.links[pairOf(s.t.id, p.id)]; link != "" {
+				s.fail(link, "aliased", fmt.Sprintf("after %s on L%d the list L%d, which this operation does not touch (the two were related by an earlier %s), changed: %s", after, s.t.id, p.id, link, msg))
+			} else {
+				s.fail(after, "changed-other-list", fmt.Sprintf("after %s on L%d the list L%d, which this operation does not touch, changed: %s", after, s.t.id, p.id, msg))
+			}
+		}
+		s.dead = true
+		return false
+	}
+	for _, h := range s.helds {
+		s.c.Count("held_arrays_verified", 1)
+		if msg := h.check(); msg != "" {
+			s.fail(h.origin, "aliased", fmt.Sprintf("after %s on L%d, %s changed: %s", after, s.t.id, h.desc, msg))
+			s.dead = true
 			return false
 		}
 	}
@@ -69,7 +296,7 @@ func (s *seqRun[T, L]) verify(after string) bool {
 }
 
 func (s *seqRun[T, L]) noteCap() {
-	if tl, _ := tableLen(s.l); tl >= 0 {
+	if tl, _ := tableLen(s.t.l); tl >= 0 {
 		if tl <= 256 {
 			s.c.SetAdd("backing_lengths_seen", strconv.Itoa(tl))
 		}
@@ -77,9 +304,11 @@ func (s *seqRun[T, L]) noteCap() {
 	}
 }
 
-// mutate runs a mutator that must succeed; growth events are counted from the backing length.
+// mutate runs a mutator of the target that must succeed; growth events are counted from the
+// backing length.
 func (s *seqRun[T, L]) mutate(method string, fn func()) bool {
-	before, wasNil := tableLen(s.l)
+	before, wasNil := tableLen(s.t.l)
+	s.mutated, s.last = true, method
 	if p := vlib.Catch(fn); p != nil {
 		kindStr := "panic"
 		if wasNil && (method == "AddAll" || method == "AddAllArray") {
@@ -89,7 +318,7 @@ func (s *seqRun[T, L]) mutate(method string, fn func()) bool {
 		s.dead = true
 		return false
 	}
-	if after, _ := tableLen(s.l); after != before {
+	if after, _ := tableLen(s.t.l); after != before {
 		s.c.Count("growth_events", 1)
 		s.noteCap()
 	}
@@ -194,8 +423,8 @@ func callOOR(l list.AnyList, method string, idx int) (ret string) {
 // probeOOR: an index outside [0,size) must be reported (the code's way of reporting is a
 // panic), whether or not it falls inside the backing array's spare capacity.
 func (s *seqRun[T, L]) probeOOR() {
-	size := len(s.m)
-	tl, _ := tableLen(s.l)
+	size := len(s.t.m)
+	tl, _ := tableLen(s.t.l)
 	var idx int
 	switch s.r.Intn(10) {
 	case 0, 1:
@@ -227,7 +456,7 @@ func (s *seqRun[T, L]) probeOOR() {
 		idx = []int{math.MaxInt64, math.MinInt64, math.MaxInt32, math.MinInt32, size + 1}[s.r.Intn(5)]
 	}
 	method := oorMethods[s.r.Intn(len(oorMethods))]
-	s.logf("%s(%d) [out of range: size %d, backing %d]", method, idx, size, tl)
+	s.logf("L%d.%s(%d) [out of range: size %d, backing %d]", s.t.id, method, idx, size, tl)
 	inSpare := idx >= size && idx < tl
 	s.c.Count("oor_probes", 1)
 	if inSpare {
@@ -237,7 +466,7 @@ func (s *seqRun[T, L]) probeOOR() {
 		s.c.Count("oor_probes_negative", 1)
 	}
 	var ret string
-	p := vlib.Catch(func() { ret = callOOR(s.l, method, idx) })
+	p := vlib.Catch(func() { ret = callOOR(s.t.l, method, idx) })
 	if p == nil {
 		kindStr := "wrong-value"
 		if inSpare {
@@ -246,93 +475,507 @@ func (s *seqRun[T, L]) probeOOR() {
 		s.fail(method, kindStr, fmt.Sprintf("%s(%d) on a list of size %d (backing length %d) did not report the index; it returned %s", method, idx, size, tl, ret))
 		return
 	}
-	// a rejected call must leave the list as it was
-	s.verify(method)
+	// a rejected call must leave this list and all others as they were
+	s.verifyAll(method, "")
 }
 
+// wire: the target is written, the bytes must be the reference encoding, and the list read
+// back from them joins the pool: it must be independent of the list that was written and of
+// the byte slice it was read from.
 func (s *seqRun[T, L]) wire() {
-	k := s.k
-	s.logf("Write/Read")
+	k, src := s.k, s.t
+	s.logf("L%d.Write; Read of the bytes gives L%d", src.id, s.nextID)
 	out := io.NewDataOutputX()
-	if p := vlib.Catch(func() { s.l.Write(out) }); p != nil {
+	if p := vlib.Catch(func() { src.l.Write(out) }); p != nil {
 		s.fail("Write", "panic", fmt.Sprintf("Write panicked: %v", p))
 		return
 	}
 	got := out.ToByteArray()
-	want := refList(s.m, k.enc)
+	want := refList(src.m, k.enc)
 	if !bytes.Equal(got, want) {
-		s.c.Fail(k.name+".Write:wire-bytes", fmt.Sprintf("Write of %d elements differs from the reference encoding", len(s.m)),
-			map[string]interface{}{"list": k.name, "ops": s.ops, "model": showAll(k.show, s.m), "got": vlib.Hex(got), "want": vlib.Hex(want)})
+		s.c.Fail(k.name+".Write:wire-bytes", fmt.Sprintf("Write of %d elements differs from the reference encoding", len(src.m)),
+			map[string]interface{}{"list": k.name, "ops": s.ops, "model": showAll(k.show, src.m), "got": vlib.Hex(got), "want": vlib.Hex(want)})
 		return
 	}
-	checkRead(s.c, k, want, s.m, s.ops)
+	back, buf, ok := checkRead(s.c, k, want, src.m, s.ops)
 	s.c.Count("wire_roundtrips", 1)
+	if !ok {
+		return
+	}
+	p := s.join(back, append([]T(nil), src.m...), fmt.Sprintf("Read(bytes written by L%d)", src.id))
+	s.links[pairOf(src.id, p.id)] = "Read"
+	s.holdBytes("Write", fmt.Sprintf("the byte slice produced by L%d.Write", src.id), got)
+	s.holdBytes("Read", fmt.Sprintf("the byte slice L%d was read from", p.id), buf)
+	s.c.Count("decoded_lists_joined", 1)
+	if s.r.Bool() {
+		s.logf("scribble on the byte slice L%d was read from", p.id)
+		s.helds[len(s.helds)-1].scribble()
+		s.verifyAll("writing to the byte slice a list was read from", "Read")
+	}
+	s.mutated = true
 }
 
 // checkRead decodes enc (followed by a canary) into a fresh list and compares with vals.
-func checkRead[T any, L tlist[T, L]](c *vlib.Ctx, k *kind[T, L], enc []byte, vals []T, ops []string) bool {
-	in := io.NewDataInputX(append(append([]byte(nil), enc...), canary...))
+// It returns the decoded list and the byte slice the reader was given.
+func checkRead[T any, L tlist[T, L]](c *vlib.Ctx, k *kind[T, L], enc []byte, vals []T, ops []string) (L, []byte, bool) {
+	buf := append(append([]byte(nil), enc...), canary...)
+	in := io.NewDataInputX(buf)
 	back := k.newDef()
 	detail := func() map[string]interface{} {
 		return map[string]interface{}{"list": k.name, "ops": ops, "model": showAll(k.show, vals), "bytes": vlib.Hex(enc)}
 	}
 	if p := vlib.Catch(func() { back.Read(in) }); p != nil {
 		c.Fail(k.name+".Read:panic", fmt.Sprintf("Read of a valid encoding panicked: %v", p), detail())
-		return false
+		return back, buf, false
 	}
 	if back.Size() != len(vals) {
 		c.Fail(k.name+".Read:wire-roundtrip", fmt.Sprintf("Read gave %d elements, %d were written", back.Size(), len(vals)), detail())
-		return false
+		return back, buf, false
 	}
 	arr := back.ToArray()
 	for i := range vals {
 		if !k.eq(arr[i], vals[i]) {
 			c.Fail(k.name+".Read:wire-roundtrip", fmt.Sprintf("element %d read back as %s, written %s", i, k.show(arr[i]), k.show(vals[i])), detail())
-			return false
+			return back, buf, false
 		}
 	}
 	if av := in.Available(); av != int32(len(canary)) {
 		c.Fail(k.name+".Read:wire-roundtrip", fmt.Sprintf("reader left %d bytes, the canary has %d: it did not consume exactly the encoding", av, len(canary)), detail())
-		return false
+		return back, buf, false
 	}
 	var rest []byte
 	if p := vlib.Catch(func() { rest = in.ReadBytes(int32(len(canary))) }); p != nil || !bytes.Equal(rest, canary) {
 		c.Fail(k.name+".Read:wire-roundtrip", fmt.Sprintf("canary after the encoding reads as %x", rest), detail())
-		return false
+		return back, buf, false
 	}
-	return true
+	return back, buf, true
+}
+
+// scribbleList overwrites every element of l and appends one more; it returns the new model.
+func scribbleList[T any, L tlist[T, L]](k *kind[T, L], l L, r *vlib.Rand) []T {
+	n := l.Size()
+	m := make([]T, 0, n+1)
+	for i := 0; i < n; i++ {
+		v := k.draw(r)
+		k.set(l, i, v)
+		m = append(m, v)
+	}
+	v := k.draw(r)
+	k.add(l, v)
+	return append(m, v)
+}
+
+// sameAs: the list holds exactly vals.
+func sameAs[T any, L tlist[T, L]](k *kind[T, L], l L, vals []T) string {
+	if l.Size() != len(vals) {
+		return fmt.Sprintf("size is %d, expected %d", l.Size(), len(vals))
+	}
+	arr := l.ToArray()
+	if len(arr) != len(vals) {
+		return fmt.Sprintf("len(ToArray()) is %d, expected %d", len(arr), len(vals))
+	}
+	for i := range vals {
+		if !k.eq(arr[i], vals[i]) {
+			return fmt.Sprintf("element %d is %s, expected %s", i, k.show(arr[i]), k.show(vals[i]))
+		}
+	}
+	return ""
+}
+
+// addAllSelf: the target appended to itself.
+func (s *seqRun[T, L]) addAllSelf() {
+	size := len(s.t.m)
+	s.logf("L%d.AddAll(L%d) [itself]", s.t.id, s.t.id)
+	s.c.Count("addall_self", 1)
+	s.mutated, s.last = true, "AddAll"
+	if p := vlib.Catch(func() { s.t.l.AddAll(s.t.l) }); p != nil {
+		s.fail("AddAll", "panic/self-alias", fmt.Sprintf("l.AddAll(l) on a list of %d elements panicked: %v", size, p))
+		s.dead = true
+		return
+	}
+	s.t.m = append(s.t.m, s.t.m...)
+	s.noteCap()
+}
+
+// pickOther returns a pool list other than the target (nil when there is none).
+func (s *seqRun[T, L]) pickOther() *plist[T, L] {
+	if len(s.pool) < 2 {
+		return nil
+	}
+	ti := s.indexOf(s.t)
+	j := s.r.Intn(len(s.pool) - 1)
+	if j >= ti && ti >= 0 {
+		j++
+	}
+	return s.pool[j]
+}
+
+// step: one operation on one target of the pool, then (after a mutation) the whole pool is verified.
+func (s *seqRun[T, L]) step(bigBulk bool) {
+	c, k, r := s.c, s.k, s.r
+	s.t = s.pool[0]
+	if len(s.pool) > 1 && r.Chance(9, 20) {
+		s.t = s.pool[1+r.Intn(len(s.pool)-1)]
+	}
+	s.mutated = false
+	t := s.t
+	size := len(t.m)
+	op := r.Intn(100)
+	switch {
+	case op < 26: // native add
+		v := k.draw(r)
+		s.logf("L%d.Add%s(%s)", t.id, k.short, k.show(v))
+		if s.mutate("Add"+k.short, func() { k.add(t.l, v) }) {
+			t.m = append(t.m, v)
+			if sz := t.l.Size(); sz != len(t.m) {
+				s.fail("Add"+k.short, "wrong-size", fmt.Sprintf("Size()=%d after add, model %d", sz, len(t.m)))
+				s.dead = true
+			}
+		}
+	case op < 31: // add through another type's accessor
+		via, kv := r.Intn(5), drawSmall(r)
+		method := "Add" + viaNames[via]
+		s.logf("L%d.%s(%d)", t.id, method, kv)
+		if s.mutate(method, func() { callAddVia(t.l, via, kv) }) {
+			if t.l.Size() != size+1 {
+				s.fail(method, "wrong-size", fmt.Sprintf("Size()=%d after %s on a list of %d", t.l.Size(), method, size))
+				s.dead = true
+				break
+			}
+			var actual T
+			if p := vlib.Catch(func() { actual = k.get(t.l, size) }); p != nil {
+				s.fail("Get"+k.short, "panic", fmt.Sprintf("Get%s(%d) panicked after %s: %v", k.short, size, method, p))
+				s.dead = true
+				break
+			}
+			if !k.acceptSmall(actual, kv, via) {
+				s.fail(method, "wrong-value", fmt.Sprintf("%s(%d) stored %s", method, kv, k.show(actual)))
+			}
+			t.m = append(t.m, actual)
+		}
+	case op < 38: // AddAllArray: a fresh array, nil, empty, or the ToArray() of a pool list (the target included)
+		var arr []T
+		what := ""
+		n := r.Intn(8)
+		if bigBulk && r.Chance(1, 3) {
+			n = r.Range(8, 60)
+		}
+		switch r.Intn(10) {
+		case 0:
+			arr = nil
+		case 1:
+			arr = []T{}
+		case 2, 3, 4:
+			src := s.pool[r.Intn(len(s.pool))]
+			if size+len(src.m) <= maxJoint {
+				if p := vlib.Catch(func() { arr = src.l.ToArray() }); p != nil {
+					s.fail("ToArray", "panic", fmt.Sprintf("L%d.ToArray panicked: %v", src.id, p))
+					s.dead = true
+					return
+				}
+				what = fmt.Sprintf("L%d.ToArray()=", src.id)
+				c.Count("addallarray_from_pool_list", 1)
+				break
+			}
+			fallthrough
+		default:
+			arr = make([]T, n)
+			for j := range arr {
+				arr[j] = k.draw(r)
+			}
+		}
+		s.logf("L%d.AddAllArray(%s%v)", t.id, what, showAll(k.show, arr))
+		cp := append([]T(nil), arr...)
+		if s.mutate("AddAllArray", func() { t.l.AddAllArray(arr) }) {
+			t.m = append(t.m, cp...)
+			for j := range arr {
+				if !k.eq(arr[j], cp[j]) {
+					s.fail("AddAllArray", "wrong-value", "the argument array was modified")
+					break
+				}
+			}
+			s.holdVals("AddAllArray", fmt.Sprintf("the array that was passed to L%d.AddAllArray", t.id), arr)
+		}
+	case op < 46: // AddAll: another pool list, the target itself, or a new list (which joins the pool)
+		var src *plist[T, L]
+		switch how := r.Intn(20); {
+		case how < 8:
+			if o := s.pickOther(); o != nil && size+len(o.m) <= maxJoint {
+				src = o
+				c.Count("addall_from_pool_list", 1)
+			}
+		case how < 10:
+			if size > 0 && size <= 300 {
+				s.addAllSelf()
+				break
+			}
+		}
+		if s.mutated { // self
+			break
+		}
+		if src == nil {
+			n := r.Intn(8)
+			if bigBulk && r.Chance(1, 3) {
+				n = r.Range(8, 60)
+			}
+			vals := make([]T, n)
+			for j := range vals {
+				vals[j] = k.draw(r)
+			}
+			var other L
+			var ctor string
+			switch r.Intn(3) {
+			case 0:
+				other, ctor = k.newDef(), "Default"
+			case 1:
+				e := n + r.Intn(12) // spare capacity behind the elements
+				other, ctor = k.newCap(e), fmt.Sprintf("cap %d", e)
+			default:
+				e := r.Intn(4)
+				other, ctor = k.newCap(e), fmt.Sprintf("cap %d", e)
+			}
+			for _, v := range vals {
+				k.add(other, v)
+			}
+			s.logf("L%d := %s with %v", s.nextID, ctor, showAll(k.show, vals))
+			src = s.join(other, vals, ctor)
+		}
+		if size == 0 {
+			c.Count("addall_into_empty_list", 1)
+			if tl, _ := tableLen(t.l); tl < len(src.m) {
+				c.Count("addall_into_empty_too_small_list", 1)
+			}
+		}
+		s.logf("L%d.AddAll(L%d)", t.id, src.id)
+		if s.mutate("AddAll", func() { t.l.AddAll(src.l) }) {
+			t.m = append(t.m, src.m...)
+			s.links[pairOf(t.id, src.id)] = "AddAll"
+			if _, kd, msg := s.diff(src); kd != "" {
+				s.fail("AddAll", kd, "the argument list was modified: "+msg)
+				s.dead = true
+			}
+		}
+	case op < 54: // native set
+		if size == 0 {
+			return
+		}
+		idx, v := r.Intn(size), k.draw(r)
+		if r.Chance(1, 4) {
+			idx = size - 1
+		}
+		s.logf("L%d.Set%s(%d, %s)", t.id, k.short, idx, k.show(v))
+		if s.mutate("Set"+k.short, func() { k.set(t.l, idx, v) }) {
+			t.m[idx] = v
+		}
+	case op < 58: // set through another type's accessor
+		if size == 0 {
+			return
+		}
+		idx, via, kv := r.Intn(size), r.Intn(5), drawSmall(r)
+		method := "Set" + viaNames[via]
+		s.logf("L%d.%s(%d, %d)", t.id, method, idx, kv)
+		if s.mutate(method, func() { callSetVia(t.l, via, idx, kv) }) {
+			var actual T
+			if p := vlib.Catch(func() { actual = k.get(t.l, idx) }); p != nil {
+				s.fail("Get"+k.short, "panic", fmt.Sprintf("Get%s(%d) panicked after %s: %v", k.short, idx, method, p))
+				s.dead = true
+				break
+			}
+			if !k.acceptSmall(actual, kv, via) {
+				s.fail(method, "wrong-value", fmt.Sprintf("%s(%d,%d) stored %s", method, idx, kv, k.show(actual)))
+			}
+			t.m[idx] = actual
+		}
+	case op < 66: // native get
+		if size == 0 {
+			return
+		}
+		idx := r.Intn(size)
+		if r.Chance(1, 4) {
+			idx = size - 1
+		}
+		s.logf("L%d.Get%s(%d)", t.id, k.short, idx)
+		var g T
+		if p := vlib.Catch(func() { g = k.get(t.l, idx) }); p != nil {
+			s.fail("Get"+k.short, "panic", fmt.Sprintf("Get%s(%d) panicked on a list of %d: %v", k.short, idx, size, p))
+		} else if !k.eq(g, t.m[idx]) {
+			s.fail("Get"+k.short, "wrong-value", fmt.Sprintf("Get%s(%d)=%s, model says %s", k.short, idx, k.show(g), k.show(t.m[idx])))
+		}
+		c.Count("gets_checked", 1)
+	case op < 72: // typed-conversion accessors
+		if size == 0 {
+			return
+		}
+		idx := r.Intn(size)
+		s.logf("L%d: typed accessors at %d", t.id, idx)
+		var method, msg string
+		if p := vlib.Catch(func() {
+			method, msg = k.exactGetters(t.l, idx, t.m[idx])
+			if method == "" {
+				if kv, intOK, ok := k.smallOf(t.m[idx]); ok {
+					method, msg = checkSmallGetters(t.l, idx, kv, intOK)
+					c.Count("small_value_accessor_checks", 1)
+				}
+			}
+		}); p != nil {
+			s.fail("Get*", "panic", fmt.Sprintf("a typed accessor panicked at valid index %d (element %s): %v", idx, k.show(t.m[idx]), p))
+		} else if method != "" {
+			s.fail(method, "wrong-value", msg)
+		}
+		c.Count("accessor_checks", 1)
+	case op < 83: // out-of-range probe
+		s.probeOOR()
+	case op < 87: // ToArray is a copy; the array stays under observation
+		s.logf("L%d.ToArray + scribble", t.id)
+		if !s.verify("ToArray") {
+			s.dead = true
+			break
+		}
+		arr := t.l.ToArray()
+		s.holdVals("ToArray", fmt.Sprintf("an array returned by L%d.ToArray", t.id), arr)
+		if len(arr) > 0 {
+			s.helds[len(s.helds)-1].scribble()
+		}
+		s.verifyAll("writing to an array returned by ToArray", "ToArray")
+	case op < 90: // write to an array that crossed the library boundary earlier
+		if len(s.helds) == 0 {
+			return
+		}
+		h := s.helds[r.Intn(len(s.helds))]
+		s.logf("scribble on %s", h.desc)
+		h.scribble()
+		c.Count("held_array_scribbles", 1)
+		s.verifyAll("writing to "+h.desc, h.origin)
+	case op < 94: // Filtering (by a random index list, the identity, or a Sorting result): the result joins the pool
+		var idx []int
+		how, blame := "", "Filtering"
+		switch r.Intn(4) {
+		case 0:
+			asc := r.Bool()
+			var perm []int
+			if p := vlib.Catch(func() { perm = t.l.Sorting(asc) }); p != nil {
+				s.fail("Sorting", "panic", fmt.Sprintf("Sorting(%v) panicked: %v", asc, p))
+				s.dead = true
+				return
+			}
+			if msg := checkPermutation(perm, size); msg != "" {
+				s.fail("Sorting", "not-permutation", msg)
+				return
+			}
+			idx, how, blame = perm, fmt.Sprintf("L%d.Sorting(%v)=", t.id, asc), "Sorting"
+			c.Count("seq_sortings", 1)
+		case 1:
+			idx = make([]int, size)
+			for j := range idx {
+				idx[j] = j
+			}
+			how = "identity "
+		default:
+			if size > 0 {
+				idx = make([]int, r.Intn(minI(2*size+3, 300)))
+				for j := range idx {
+					idx[j] = r.Intn(size)
+				}
+			} else if r.Bool() {
+				idx = []int{}
+			}
+		}
+		s.logf("L%d := L%d.Filtering(%s%v)", s.nextID, t.id, how, clipInts(idx))
+		var res list.AnyList
+		if p := vlib.Catch(func() { res = t.l.Filtering(idx) }); p != nil {
+			s.fail("Filtering", "panic", fmt.Sprintf("Filtering with valid indices panicked: %v", p))
+			s.dead = true
+			return
+		}
+		fl, ok := k.as(res)
+		if !ok {
+			s.fail("Filtering", "filtering", fmt.Sprintf("Filtering returned a %T", res))
+			return
+		}
+		fm := make([]T, len(idx))
+		for j, ix := range idx {
+			fm[j] = t.m[ix]
+		}
+		p := s.join(fl, fm, fmt.Sprintf("L%d.Filtering", t.id))
+		if _, kd, msg := s.diff(p); kd != "" {
+			s.fail("Filtering", "filtering", "the filtered list is not the selection: "+msg)
+			s.dead = true
+			return
+		}
+		s.links[pairOf(t.id, p.id)] = "Filtering"
+		if blame == "Sorting" {
+			s.holdInts(blame, fmt.Sprintf("the index slice returned by L%d.Sorting (and passed to Filtering)", t.id), idx)
+		} else {
+			s.holdInts(blame, fmt.Sprintf("the index slice passed to L%d.Filtering", t.id), idx)
+		}
+		c.Count("seq_filterings", 1)
+		s.mutated, s.last = true, "Filtering"
+	case op < 97: // wire form
+		s.last = "Read"
+		s.wire()
+	case op < 99: // a pool list is replaced by a new empty one (empty destinations recur)
+		if len(s.pool) < 2 {
+			return
+		}
+		j := 1 + r.Intn(len(s.pool)-1)
+		l, ctor := s.construct(r.Intn(8))
+		old := s.pool[j]
+		s.pool[j] = &plist[T, L]{id: s.nextID, l: l, ctor: ctor}
+		s.nextID++
+		s.logf("L%d := %s (takes the place of L%d)", s.pool[j].id, ctor, old.id)
+		c.Count("pool_lists", 1)
+	default:
+		s.probeOOR()
+	}
+	if !s.dead && s.mutated {
+		if !s.verifyAll(s.last, "") {
+			s.dead = true
+		}
+	}
+	c.Count("ops", 1)
 }
 
 func runSeq[T any, L tlist[T, L]](c *vlib.Ctx, k *kind[T, L], i int, r *vlib.Rand) {
-	s := &seqRun[T, L]{c: c, k: k, r: r}
+	s := &seqRun[T, L]{c: c, k: k, r: r, links: map[[2]int]string{}}
 	ctorIdx := r.Intn(8)
-	switch ctorIdx {
-	case 0:
-		s.l, s.ctor = k.newDef(), "Default"
-	case 1:
-		s.l, s.ctor = k.newCap(0), "cap 0"
-	case 2:
-		s.l, s.ctor = k.newCap(1), "cap 1"
-	case 3:
-		s.l, s.ctor = k.newCap(10), "cap 10"
-	case 4:
-		s.l, s.ctor = k.newCap(30), "cap 30"
-	case 5:
-		s.l, s.ctor = k.zero(), "zero-value struct"
-	case 6:
-		n := r.Range(2, 70)
-		s.l, s.ctor = k.newCap(n), fmt.Sprintf("cap %d (other)", n)
-	default:
-		s.l, s.ctor = k.newCap(10), "cap 10"
+	{
+		l, ctor := s.construct(ctorIdx)
+		s.t = s.join(l, nil, ctor)
 	}
+	prim := s.pool[0]
 	if ctorIdx == 6 {
 		c.SetAdd("constructors", k.short+":cap other")
 	} else {
-		c.SetAdd("constructors", k.short+":"+s.ctor)
+		c.SetAdd("constructors", k.short+":"+prim.ctor)
 	}
 	s.noteCap()
-	if s.l.GetType() != k.typ {
-		s.fail("GetType", "wrong-value", fmt.Sprintf("GetType()=%d, layout says %d", s.l.GetType(), k.typ))
+	if prim.l.GetType() != k.typ {
+		s.fail("GetType", "wrong-value", fmt.Sprintf("GetType()=%d, layout says %d", prim.l.GetType(), k.typ))
+	}
+	// the other lists of the pool: different initial capacities, about half of them empty
+	npool := r.Range(3, 5)
+	for len(s.pool) < npool {
+		l, ctor := s.construct(r.Intn(8))
+		var m []T
+		if r.Bool() {
+			m = make([]T, r.Range(1, 24))
+			for j := range m {
+				m[j] = k.draw(r)
+			}
+			if r.Bool() {
+				l.AddAllArray(append([]T(nil), m...))
+			} else {
+				for _, v := range m {
+					k.add(l, v)
+				}
+			}
+		}
+		s.logf("L%d := %s with %v", s.nextID, ctor, showAll(k.show, m))
+		p := s.join(l, m, ctor)
+		if _, kd, msg := s.diff(p); kd != "" {
+			s.fail("Add"+k.short, kd, "building a pool list: "+msg)
+			return
+		}
 	}
 	// program length: most programs are short (all small sizes are crossed one by one),
 	// some long (several growth steps), bulk adds jump over steps.
@@ -348,249 +991,60 @@ func runSeq[T any, L tlist[T, L]](c *vlib.Ctx, k *kind[T, L], i int, r *vlib.Ran
 	if directed != 0 {
 		// directed: the first operation on the zero-value struct is a bulk add of more than
 		// the default capacity
+		s.t = prim
 		arr := make([]T, r.Range(11, 40))
 		for j := range arr {
 			arr[j] = k.draw(r)
 		}
 		if directed == 1 {
-			s.logf("AddAllArray(%v)", showAll(k.show, arr))
-			if s.mutate("AddAllArray", func() { s.l.AddAllArray(arr) }) {
-				s.m = append(s.m, arr...)
+			s.logf("L0.AddAllArray(%v)", showAll(k.show, arr))
+			if s.mutate("AddAllArray", func() { prim.l.AddAllArray(arr) }) {
+				prim.m = append(prim.m, arr...)
 			}
 		} else {
 			other := k.newDef()
 			other.AddAllArray(arr)
-			s.logf("AddAll(list%v)", showAll(k.show, arr))
-			if s.mutate("AddAll", func() { s.l.AddAll(other) }) {
-				s.m = append(s.m, arr...)
+			s.logf("L0.AddAll(list%v)", showAll(k.show, arr))
+			if s.mutate("AddAll", func() { prim.l.AddAll(other) }) {
+				prim.m = append(prim.m, arr...)
 			}
 		}
 		c.Count("bulk_add_on_nil_table", 1)
+		if !s.dead {
+			s.verifyAll(s.last, "")
+		}
 	}
 	for step := 0; step < nops && !s.dead; step++ {
-		size := len(s.m)
-		op := r.Intn(100)
-		switch {
-		case op < 30: // native add
-			v := k.draw(r)
-			s.logf("Add%s(%s)", k.short, k.show(v))
-			if s.mutate("Add"+k.short, func() { k.add(s.l, v) }) {
-				s.m = append(s.m, v)
-				if sz := s.l.Size(); sz != len(s.m) {
-					s.fail("Add"+k.short, "wrong-size", fmt.Sprintf("Size()=%d after add, model %d", sz, len(s.m)))
-					s.dead = true
-				}
-			}
-		case op < 36: // add through another type's accessor
-			via, kv := r.Intn(5), drawSmall(r)
-			{
-				method := "Add" + viaNames[via]
-				s.logf("%s(%d)", method, kv)
-				if s.mutate(method, func() { callAddVia(s.l, via, kv) }) {
-					if s.l.Size() != size+1 {
-						s.fail(method, "wrong-size", fmt.Sprintf("Size()=%d after %s on a list of %d", s.l.Size(), method, size))
-						s.dead = true
-						break
-					}
-					var actual T
-					if p := vlib.Catch(func() { actual = k.get(s.l, size) }); p != nil {
-						s.fail("Get"+k.short, "panic", fmt.Sprintf("Get%s(%d) panicked after %s: %v", k.short, size, method, p))
-						s.dead = true
-						break
-					}
-					if !k.acceptSmall(actual, kv, via) {
-						s.fail(method, "wrong-value", fmt.Sprintf("%s(%d) stored %s", method, kv, k.show(actual)))
-					}
-					s.m = append(s.m, actual)
-				}
-			}
-		case op < 43: // AddAllArray
-			var arr []T
-			n := r.Intn(8)
-			if bigBulk && r.Chance(1, 3) {
-				n = r.Range(8, 60)
-			}
-			switch r.Intn(8) {
-			case 0:
-				arr = nil
-			case 1:
-				arr = []T{}
-			default:
-				arr = make([]T, n)
-				for j := range arr {
-					arr[j] = k.draw(r)
-				}
-			}
-			s.logf("AddAllArray(%v)", showAll(k.show, arr))
-			cp := append([]T(nil), arr...)
-			if s.mutate("AddAllArray", func() { s.l.AddAllArray(arr) }) {
-				s.m = append(s.m, cp...)
-				for j := range arr {
-					if !k.eq(arr[j], cp[j]) {
-						s.fail("AddAllArray", "wrong-value", "the argument array was modified")
-					}
-				}
-			}
-		case op < 50: // AddAll(other list)
-			n := r.Intn(8)
-			if bigBulk && r.Chance(1, 3) {
-				n = r.Range(8, 60)
-			}
-			vals := make([]T, n)
-			for j := range vals {
-				vals[j] = k.draw(r)
-			}
-			var other L
-			switch r.Intn(3) {
-			case 0:
-				other = k.newDef()
-			case 1:
-				other = k.newCap(n + r.Intn(12)) // spare capacity behind the elements
-			default:
-				other = k.newCap(r.Intn(4))
-			}
-			for _, v := range vals {
-				k.add(other, v)
-			}
-			s.logf("AddAll(list%v)", showAll(k.show, vals))
-			if s.mutate("AddAll", func() { s.l.AddAll(other) }) {
-				s.m = append(s.m, vals...)
-				oa := other.ToArray()
-				if other.Size() != n || len(oa) != n {
-					s.fail("AddAll", "wrong-size", fmt.Sprintf("the argument list changed size to %d", other.Size()))
-				} else {
-					for j := range oa {
-						if !k.eq(oa[j], vals[j]) {
-							s.fail("AddAll", "wrong-value", "the argument list was modified")
-							break
-						}
-					}
-				}
-			}
-		case op < 58: // native set
-			if size == 0 {
-				continue
-			}
-			idx, v := r.Intn(size), k.draw(r)
-			if r.Chance(1, 4) {
-				idx = size - 1
-			}
-			s.logf("Set%s(%d, %s)", k.short, idx, k.show(v))
-			if s.mutate("Set"+k.short, func() { k.set(s.l, idx, v) }) {
-				s.m[idx] = v
-			}
-		case op < 62: // set through another type's accessor
-			if size == 0 {
-				continue
-			}
-			idx, via, kv := r.Intn(size), r.Intn(5), drawSmall(r)
-			method := "Set" + viaNames[via]
-			s.logf("%s(%d, %d)", method, idx, kv)
-			if s.mutate(method, func() { callSetVia(s.l, via, idx, kv) }) {
-				var actual T
-				if p := vlib.Catch(func() { actual = k.get(s.l, idx) }); p != nil {
-					s.fail("Get"+k.short, "panic", fmt.Sprintf("Get%s(%d) panicked after %s: %v", k.short, idx, method, p))
-					s.dead = true
-					break
-				}
-				if !k.acceptSmall(actual, kv, via) {
-					s.fail(method, "wrong-value", fmt.Sprintf("%s(%d,%d) stored %s", method, idx, kv, k.show(actual)))
-				}
-				s.m[idx] = actual
-			}
-		case op < 72: // native get
-			if size == 0 {
-				continue
-			}
-			idx := r.Intn(size)
-			if r.Chance(1, 4) {
-				idx = size - 1
-			}
-			s.logf("Get%s(%d)", k.short, idx)
-			var g T
-			if p := vlib.Catch(func() { g = k.get(s.l, idx) }); p != nil {
-				s.fail("Get"+k.short, "panic", fmt.Sprintf("Get%s(%d) panicked on a list of %d: %v", k.short, idx, size, p))
-			} else if !k.eq(g, s.m[idx]) {
-				s.fail("Get"+k.short, "wrong-value", fmt.Sprintf("Get%s(%d)=%s, model says %s", k.short, idx, k.show(g), k.show(s.m[idx])))
-			}
-			c.Count("gets_checked", 1)
-		case op < 80: // typed-conversion accessors
-			if size == 0 {
-				continue
-			}
-			idx := r.Intn(size)
-			s.logf("typed accessors at %d", idx)
-			var method, msg string
-			if p := vlib.Catch(func() {
-				method, msg = k.exactGetters(s.l, idx, s.m[idx])
-				if method == "" {
-					if kv, intOK, ok := k.smallOf(s.m[idx]); ok {
-						method, msg = checkSmallGetters(s.l, idx, kv, intOK)
-						c.Count("small_value_accessor_checks", 1)
-					}
-				}
-			}); p != nil {
-				s.fail("Get*", "panic", fmt.Sprintf("a typed accessor panicked at valid index %d (element %s): %v", idx, k.show(s.m[idx]), p))
-			} else if method != "" {
-				s.fail(method, "wrong-value", msg)
-			}
-			c.Count("accessor_checks", 1)
-		case op < 92: // out-of-range probe
-			s.probeOOR()
-		case op < 96: // ToArray is a copy
-			s.logf("ToArray + scribble")
-			if !s.verify("ToArray") {
-				s.dead = true
-				break
-			}
-			arr := s.l.ToArray()
-			for j := range arr {
-				arr[j] = k.draw(r)
-			}
-			if !s.verify("ToArray") {
-				s.dead = true
-			}
-		default:
-			s.wire()
-		}
-		if !s.dead && r.Chance(1, 4) {
-			if !s.verify("step") {
-				s.dead = true
-			}
-		}
-		c.Count("ops", 1)
+		s.step(bigBulk)
 	}
 	// the sequence appended to itself (last operation of some programs)
-	if !s.dead && r.Chance(1, 3) && len(s.m) <= 400 {
-		size := len(s.m)
-		s.logf("AddAll(self)")
-		c.Count("addall_self", 1)
-		if p := vlib.Catch(func() { s.l.AddAll(s.l) }); p != nil {
-			s.fail("AddAll", "panic/self-alias", fmt.Sprintf("l.AddAll(l) on a list of %d elements panicked: %v", size, p))
-			s.dead = true
-		} else {
-			s.m = append(s.m, s.m...)
-			s.noteCap()
-		}
+	s.t = prim
+	if !s.dead && r.Chance(1, 3) && len(prim.m) <= 400 {
+		s.addAllSelf()
 	}
-	if !s.dead && s.verify("end") {
+	if !s.dead && s.verifyAll("end", "") {
 		// every element through the native accessor, and the first index past the end
-		for j := range s.m {
+		for j := range prim.m {
 			var g T
-			if p := vlib.Catch(func() { g = k.get(s.l, j) }); p != nil || !k.eq(g, s.m[j]) {
-				s.fail("Get"+k.short, "wrong-value", fmt.Sprintf("final sweep: Get%s(%d)=%s (panic %v), model says %s", k.short, j, k.show(g), p, k.show(s.m[j])))
+			if p := vlib.Catch(func() { g = k.get(prim.l, j) }); p != nil || !k.eq(g, prim.m[j]) {
+				s.fail("Get"+k.short, "wrong-value", fmt.Sprintf("final sweep: Get%s(%d)=%s (panic %v), model says %s", k.short, j, k.show(g), p, k.show(prim.m[j])))
 				break
 			}
 		}
 		s.probeOOR()
 	}
-	c.Max("max_list_size", int64(len(s.m)))
+	c.Max("max_list_size", int64(len(prim.m)))
+	c.Max("max_pool_size", int64(len(s.pool)))
 	c.Count("seq_programs", 1)
 	c.SetAdd("types_covered", k.name)
-	c.Distinct(vlib.HashStr(k.name + s.ctor + fmt.Sprint(s.ops)))
-	if wantSample(c, "sequence") && len(s.ops) >= 6 && len(s.ops) <= 14 {
+	c.Distinct(vlib.HashStr(k.name + prim.ctor + fmt.Sprint(s.ops)))
+	if wantSample(c, "sequence") && len(s.ops) >= 8 && len(s.ops) <= 16 {
 		tookSample("sequence")
-		c.Sample(map[string]interface{}{"kind": "sequence", "list": k.name, "constructor": s.ctor, "ops": s.ops, "final": showAll(k.show, s.m)})
+		final := map[string]interface{}{}
+		for _, p := range s.pool {
+			final[fmt.Sprintf("L%d", p.id)] = showAll(k.show, p.m)
+		}
+		c.Sample(map[string]interface{}{"kind": "sequence", "list": k.name, "constructor": prim.ctor, "ops": s.ops, "final": final})
 	}
 }
 
